@@ -20,9 +20,10 @@ HARNESSES = {
     "c10": [("w_c10", None)],
     "c13": [("w_c13", None)],
     "c16": [("w_c16", None)],
-    "c08": [("w_c08", ["check_fill_queue", "check_parallel_add_cms_w1", "check_parallel_add_cms_w2", "check_parallel_add_cms_w3", "check_parallel_add_cms_w4", "check_parallel_add_all", "check_parallel_add_all_w45", "check_parallel_merging", "check_items_generator"])],
+    "c08": [("w_c08", ["check_fill_queue", "check_parallel_add_cms_w1", "check_parallel_add_cms_w2", "check_parallel_add_cms_w3", "check_parallel_add_cms_w4", "check_parallel_add_all", "check_parallel_add_all_w45", "check_parallel_records_only", "check_parallel_merging", "check_items_generator"])],
     "c04": [("w_c13", None)],
     "c03": [("w_c13", None)],
+    "c18": [("w_c12", ["check_add_value_linear", "check_add_value_hh", "check_update_dict_linear", "check_update_dict_hh"])],
     "c19": [("w_c08", ["check_c19_callback_raises_w1", "check_c19_callback_raises_w2", "check_c19_dead_worker"])],
     "c01": [("w_c12", ["check_add_value_linear", "check_update_dict_linear", "check_update_list_linear", "check_ngram_linear"]), ("w_c15", ["check_linear"])],
     "c09": [("w_c15", ["check_linear", "check_log16", "check_log8"])],
